@@ -55,6 +55,34 @@ CHECKS = {
         note="'A few ulps' is read as relative 2^(5-p); values below the smallest normal are only required to be strictly positive when "
              "handed out.  Magnitudes whose single base power overflows long double although the product is in range are outside the grid.",
         technique="TLA+ loop-level model checked by TLC + read-outs of the real library validated by TLC (BigInt rationals, pi enclosure) + failing probes", ref="6/C11"),
+    "C02": dict(
+        text="Units.tla models the unit-type algebra as term rewriting (ordered pack merge with cancellation, pack powers, the ordering "
+             "gauntlet, UnpackIfSolo, scaled-unit folding, prefixes) next to an independent denotation by exponent maps; TLC explores every "
+             "expression of depth <= 2 over a universe taken from the real catalogue plus one rewriting step by each algebraic identity and "
+             "checks normal form = denotation, identities preserve denotation, pure products keep the identical type, total order.  TLC "
+             "then emits ~5-10k expressions over all 57 library units and 32 prefixes with their denotation; each is compiled in up to six "
+             "spellings and asserted equivalent to a base-unit reference, type-identical within AC-classes, inequivalent across classes, and "
+             "the compiled packs are read out and judged by TLC.",
+        note="Unit definitions are inputs (catalogue extracted from the tree).  Depth 3 and beyond is sampled only in the thorough tier.  "
+             "Expressions hitting the documented ordering limitation are excluded by a property-level rule (same dimension, magnitude, origin).",
+        technique="TLA+ term-rewriting model checked by TLC + TLC-emitted expressions compiled as static_asserts + pack read-outs validated by TLC", ref="6/C02"),
+    "C07": dict(
+        text="CommonUnit.tla models CommonUnitT as the pipeline FlatSort / EliminateRedundant / FirstMatching / SimplifyIfOnlyOneUnscaledUnit on "
+             "top of Units.tla; TLC explores every list of length 2..3 over an 11-unit family in every permutation plus a repetition and checks "
+             "gcd magnitude, integer jointly-coprime cofactors, 'is an input when possible', order independence and nesting.  TLC emits ~900 "
+             "real lists (six families from the catalogue incl. 2^40-scale and pi-scaled units) with each input's cofactor; compiled "
+             "assertions check all permutations/repetition for type identity, cofactors, is-an-input, nesting, Quantity common_type; "
+             "cofactor packs are read out and judged by TLC.",
+        note="Irrational lists are only required to be permutation-invariant.  Unit definitions are inputs.",
+        technique="TLA+ pipeline model checked by TLC + TLC-emitted lists compiled as static_asserts + cofactor read-outs validated by TLC", ref="6/C07"),
+    "C10": dict(
+        text="CommonPointUnit.tla models the CommonOrigin fold, the displacement-magnitude gcd and FirstMatchingUnit; TLC explores all pairs and "
+             "triples (every permutation, a repetition) over 8 model point units with rational scales/origins.  For the real library, pairs "
+             "and triples of Kelvins/Celsius/Fahrenheit, prefixed forms and seeded generated point units are compiled; scale and origin of "
+             "every input and of CommonPointUnitT are read out and TLC decides with exact BigInt rationals that every input maps by "
+             "x -> a*x + b with a in N+, b in N, plus permutation/repetition type identity and 'is an input when possible'.",
+        note="Generated origins are kept small so that the library's own long long arithmetic cannot overflow.  Definitions of the temperature units are inputs.",
+        technique="TLA+ fold/gcd model checked by TLC + read-outs of compiled common point units validated by TLC (BigInt rationals)", ref="6/C10"),
 }
 
 
